@@ -1,7 +1,7 @@
 (** C04 — the played sequence: the successor of a position in each direction (with the wrap
     from loop end to loop start), the straight run and the exact end without a loop. *)
 From Coq Require Import ZArith List Bool Lia.
-From KV Require Import Base.Outcome C04.Transport C04.ProofsTransport.
+From KV Require Import Base.Outcome C04.Transport C04.TransportSeek C04.ProofsTransport.
 Import ListNotations.
 Local Open Scope Z_scope.
 
